@@ -347,6 +347,7 @@ type replayT struct {
 }
 
 var st struct {
+	gateOrder                        int64 // lines through the tables with a catch-all blacklist (phase 4)
 	evals                            int64
 	claimedValid, claimedInvalid     int64
 	openLines                        int64
@@ -589,6 +590,63 @@ func runBatch(c *combo, items func(i int) (item, bool), single int) {
 
 // ---------------------------------------------------------------------------
 
+// gateOrder: see phase 4 in main.
+func gateOrder(c *combo, names []nameT, shapes []shape, verd [][6]ref.ValVerdict) {
+	config := cfg.NewConfig()
+	if _, err := toml.Decode(c.toml(), &config); err != nil {
+		panic(err)
+	}
+	tc, err := config.TableConfig()
+	if err != nil {
+		panic(err)
+	}
+	t := table.New(tc)
+	all := matcher.Matcher{}
+	t.AddBlacklist(&all)
+	route := harn.NewCapture("all", matcher.Matcher{})
+	t.AddRoute(route)
+	check := func(line []byte, jl ref.ValLineVerdict) {
+		in0, inv0, bl0, oth0 := cIn.Count(), cInvalid.Count(), cBlack.Count(), cOOO.Count()+cUnroutable.Count()
+		n0 := len(route.Lines)
+		var pan interface{}
+		func() {
+			defer func() { pan = recover() }()
+			t.Dispatch(append([]byte(nil), line...))
+		}()
+		dIn, dInv, dBl, dOth := cIn.Count()-in0, cInvalid.Count()-inv0, cBlack.Count()-bl0, cOOO.Count()+cUnroutable.Count()-oth0
+		st.evals++
+		st.gateOrder++
+		switch {
+		case pan != nil:
+			fail("panic", c, line, fmt.Sprintf("Table.Dispatch panicked on a table with a catch-all blacklist: %v", pan))
+		case len(route.Lines) != n0:
+			fail("blacklist-forwarded", c, line, "forwarded to a route although the blacklist matches every name")
+		case dIn != 1 || dOth != 0 || dInv+dBl != 1:
+			fail("gate-counters", c, line, fmt.Sprintf("table with a catch-all blacklist: in %+d invalid %+d blacklist %+d other %+d; exactly one of invalid/blacklist must count the line", dIn, dInv, dBl, dOth))
+		case jl.Claimed && !jl.Valid && dInv != 1:
+			fail("invalid-hidden-by-blacklist", c, line, fmt.Sprintf("invalid (%s) but counted as blacklisted instead of invalid: a rejected line must be counted and reported whatever the blacklist says", jl.Reason))
+		case jl.Claimed && jl.Valid && dBl != 1:
+			fail("valid-counted-invalid", c, line, "valid at the configured levels but counted invalid on a table with a catch-all blacklist")
+		}
+	}
+	for _, sh := range shapes {
+		for ni, n := range names {
+			line := sh.line(n.b)
+			jl := ref.ValJudgeLine(line, func(f []byte) ref.ValVerdict {
+				if bytes.Equal(f, n.b) {
+					return verd[ni][c.lvIdx]
+				}
+				return ref.ValJudgeName(f, c.lv)
+			})
+			check(line, jl)
+		}
+	}
+	for _, l := range fixedLines {
+		line := []byte(l)
+		check(line, ref.ValJudgeLine(line, func(f []byte) ref.ValVerdict { return ref.ValJudgeName(f, c.lv) }))
+	}
+}
+
 func main() {
 	rep = kit.New("C02", "exploration")
 	log.SetLevel(log.PanicLevel)
@@ -752,6 +810,15 @@ phases:
 			}
 		}
 	}
+	// Phase 4: validation comes before every other stage. A second table per level combination whose
+	// blacklist matches every name: a rejected line is still counted invalid (not blacklisted) and
+	// reported; a valid line is blacklisted, not counted invalid, and reaches no route. Main shapes x
+	// the names up to tokFull tokens, plus the lines without a name part.
+	if exhaustive {
+		for _, c := range combos[:6] {
+			gateOrder(c, names[:nFull], mshapes, verd)
+		}
+	}
 	// Probes: what the relay does with representative names of the open
 	// class and its neighbours (fully checked like every other line; the
 	// outcome is recorded in the evidence so that the observations are measured)
@@ -851,17 +918,18 @@ phases:
 		"barriers: route capture is synchronous; aggregator: inbox observed empty + Snapshot round trip, then a tick that flushes everything; bad metrics: In observed empty + Get round trip. The first 3 lines of every batch are checked one by one, the others against the last rejected text per name at the end of the batch",
 	}
 	rep.Finish(map[string]interface{}{
-		"evaluations":         st.evals,
-		"distinct_nontrivial": levelSensitive,
-		"rule":                "evaluation = one line through Table.Dispatch of the table configured from the TOML document, compared with the reference model (forwarded to route and aggregator, in/invalid counter deltas, bad-metrics record). distinct_nontrivial = distinct names whose claimed verdict differs between at least two of the six level combinations (the names that tell the levels apart); measured over the names dispatched",
-		"samples":             st.samples,
-		"exhaustive":          exhaustive,
-		"stopped":             stopped,
-		"names":               distinct,
-		"names_every_shape":   nFull,
-		"shapes":              len(shapes),
-		"level_combinations":  len(combos),
-		"lines_claimed_valid": st.claimedValid, "lines_claimed_invalid": st.claimedInvalid, "lines_open": st.openLines,
+		"evaluations":                   st.evals,
+		"lines_with_catchall_blacklist": st.gateOrder,
+		"distinct_nontrivial":           levelSensitive,
+		"rule":                          "evaluation = one line through Table.Dispatch of the table configured from the TOML document, compared with the reference model (forwarded to route and aggregator, in/invalid counter deltas, bad-metrics record). distinct_nontrivial = distinct names whose claimed verdict differs between at least two of the six level combinations (the names that tell the levels apart); measured over the names dispatched",
+		"samples":                       st.samples,
+		"exhaustive":                    exhaustive,
+		"stopped":                       stopped,
+		"names":                         distinct,
+		"names_every_shape":             nFull,
+		"shapes":                        len(shapes),
+		"level_combinations":            len(combos),
+		"lines_claimed_valid":           st.claimedValid, "lines_claimed_invalid": st.claimedInvalid, "lines_open": st.openLines,
 		"invalid_by_reason":         reasons,
 		"name_level_pairs":          map[string]int64{"claimed": claimedPairs, "open": openPairs},
 		"names_open_somewhere":      everOpen,
